@@ -98,6 +98,18 @@ CLAIMED["C11"] = dict(
          "independence (caller-supplied SVD), behaviour within rounding distance of degenerate inputs.",
 )
 
+CLAIMED["C12"] = dict(
+    text="Proof: Structure.join is executed symbolically on two 3-atom fragments with every value symbolic: the product holds fresh "
+         "copies of all atoms but the two attachment points (all 8 scalar fields), the internal bonds plus exactly one new bond between "
+         "the former neighbours with the requested type/stereo/order, charge qA+qB and multiplicity mA+mB-1 unless overridden (including "
+         "0), the sources are untouched; fragment A is translated, fragment B keeps its internal distances, the new bond vector is "
+         "dist*v1/|v1|; no path reads a hidden-state source (RNG). rotation_matrix_from_vectors is used through its C11 contract.",
+    ref="DESIGN.md section 3 C12",
+    technique="contract-based deductive verification: VCs from the real AST by pyvc (modular use of the C11 rotation contract), z3 + sympy",
+    note="Fragment sizes fixed; floats as reals; NOT decided: which rotamer _optimize_rotation picks (argmin over the compiled kernel), "
+         "iterated joins of `molli combine` (index shift).",
+)
+
 NOT_APPLICABLE = {
 }
 
